@@ -143,16 +143,17 @@ def build_versions(run, prop, E):
 
 # ------------------------------------------------------------------ FakePM.measure
 
+PM_SYMS = (z3.Array("pm.ids", I, I), z3.Int("pm.len"), z3.Array("pm.running", I, B), z3.Array("pm.fh_set", I, B),
+           z3.Function("pm.txfreq", I, I), z3.Function("pm.txfreq?none", I, B), z3.Int("freq"))
+
+
 def build_measure(run, prop, E):
     pm = toolkit("fake_pm")
     ft = toolkit("fake_trx")
     tl = toolkit("trx_list")
     f = raw(pm.FakePM, "measure")
     register_fn(run, f)
-    IDS, N = z3.Array("pm.ids", I, I), z3.Int("pm.len")
-    RUN, FHS = z3.Array("pm.running", I, B), z3.Array("pm.fh_set", I, B)
-    TXF, TXN = z3.Function("pm.txfreq", I, I), z3.Function("pm.txfreq?none", I, B)
-    freq = z3.Int("freq")
+    IDS, N, RUN, FHS, TXF, TXN, freq = PM_SYMS
 
     def fh_kind(E, ref, op, v):
         if E.branch(z3.Select(FHS, ref.idt)):
@@ -538,6 +539,15 @@ def witness_py(o, model):
     if t.get("what") == "handler":
         from props import C12 as _C12
         return _C12.witness(o, model)
+    if t.get("what") == "measure":
+        IDS, N, RUN, FHS, TXF, TXN, freq = PM_SYMS
+        n = mval(model, N)
+        t.update({"freq": mval(model, freq), "len": n, "truncated": n > 64, "transceivers": []})
+        for j in range(max(0, min(n, 64))):
+            i = mval(model, z3.Select(IDS, j))
+            t["transceivers"].append({"id": i, "running": mval(model, z3.Select(RUN, i)), "hopping": mval(model, z3.Select(FHS, i)),
+                                      "tx_freq": None if mval(model, TXN(i)) else mval(model, TXF(i))})
+        return t
     for i in range(4):
         t["arg%d" % (i + 1)] = mval(model, arg(i))
     for nme in list(STATE_FIELDS.values()) + ["_hdr_ver", "rsp_delay_ms", "_rx_freq", "_tx_freq"]:
@@ -630,6 +640,31 @@ def replay_py(payload):
         got = len(t.fh.ma) if t.fh is not None else 0
         return {"confirmed": got != pairs or len(t.ctrl_if.sock.sent) != 1, "observed": "%d channels configured" % got, "expected": "%d channels" % pairs,
                 "datagram_octets": len(text)}
+    if what == "measure":
+        # the list of the counter-model with real FakeTRX objects (one per identity), hopping ones with a real HoppingParams whose
+        # allocation avoids the measured frequency; the statement: TRX window iff a running fixed-frequency transceiver transmits on freq
+        pm = toolkit("fake_pm")
+        gs = toolkit("gsm_shared")
+        objs = {}
+        for k, d in enumerate(f["transceivers"]):
+            if d["id"] not in objs:
+                t = native_trx(name="T%d" % k, base_port=5700 + 10 * (k % 100))
+                t._rx_freq, t._tx_freq = d["tx_freq"], d["tx_freq"]
+                t.fh = gs.HoppingParams(0, 0, [(f["freq"] + 7, f["freq"] + 11)]) if d["hopping"] else None
+                t.running = bool(d["running"])
+                objs[d["id"]] = t
+        p = pm.FakePM(-120, -105, -75, -50)
+        p.trx_list = [objs[d["id"]] for d in f["transceivers"]]
+        hit = any(d["running"] and not d["hopping"] and d["tx_freq"] is not None and d["tx_freq"] == f["freq"] for d in f["transceivers"])
+        lo, hi = (-75, -50) if hit else (-120, -105)
+        seen = set()
+        try:
+            for _ in range(40):
+                seen.add(p.measure(f["freq"]))
+        except Exception as e:
+            return {"confirmed": True, "observed": "raises %s: %s" % (type(e).__name__, e), "expected": "a value in %d..%d" % (lo, hi)}
+        bad = sorted(v for v in seen if not (isinstance(v, int) and lo <= v <= hi))
+        return {"confirmed": bool(bad) and not f.get("truncated"), "observed": bad or sorted(seen), "expected": "values in %d..%d" % (lo, hi)}
     if what in ("set_hdr_ver", "pick_hdr_ver"):
         di = toolkit("data_if")
         d = di.DATAInterface.__new__(di.DATAInterface)
